@@ -77,49 +77,50 @@ def sequence_oracle(tier, seed):
     from common import np, dnp
     rng = random.Random(seed * 7919 + 909)
     fails, n_eval = [], 0
-    F0 = 400.0e6
-    kinds = {"float": lambda: F0, "np.float64": lambda: np.float64(F0), "array0d": lambda: np.array(F0), "array1": lambda: np.array([F0])}
-    for n2, n1 in ((7, 12), (8, 5)):
-        dt2, dt1 = 1.0e-3, 2.5e-4
-        vals = (np.arange(n2 * n1, dtype=float).reshape(n2, n1) % 7 - 3.0) + 1j * (np.arange(n2 * n1, dtype=float).reshape(n2, n1) % 5 - 2.0)
-        for ppm in (True, False):
-            ref = None
-            for kname, mk in kinds.items():
-                d = dnp.DNPData(vals.copy(), ["t2", "t1"], [np.arange(n2) * dt2, np.arange(n1) * dt1],
-                                attrs={"nmr_frequency": mk()}, dnplab_attrs={"frequency": mk()})
-                n_eval += 1
-                try:
-                    with warnings.catch_warnings():
-                        warnings.simplefilter("ignore")
-                        a = dnp.fourier_transform(d, "t2", convert_to_ppm=ppm)
-                        b = dnp.fourier_transform(a, "t1", convert_to_ppm=ppm)
-                        back = dnp.inverse_fourier_transform(dnp.inverse_fourier_transform(b, "f1", convert_from_ppm=ppm), "f2", convert_from_ppm=ppm)
-                        again = dnp.fourier_transform(back, "t2", convert_to_ppm=ppm)
-                except Exception as e:  # noqa: BLE001
-                    key = "C09:transform-sequence-raises:" + kname
-                    fails.append({"key": key, "clause": key, "ops": [{"frequency_kind": kname, "ppm": ppm, "error": type(e).__name__}]}); continue
-                sig = "%s:%s" % (kname, "ppm" if ppm else "hz")
-                want = np.fft.fftshift(np.fft.fft2(vals))
-                f2 = (np.arange(n2) / (n2 * dt2) - (n2 // 2) / (n2 * dt2)) / (F0 / 1e6 if ppm else 1.0)
-                f1 = (np.arange(n1) / (n1 * dt1) - (n1 // 2) / (n1 * dt1)) / (F0 / 1e6 if ppm else 1.0)
-                ok = (list(b.dims) == ["f2", "f1"] and np.allclose(b.values, want, rtol=1e-9, atol=1e-9)
-                      and np.allclose(b.coords["f2"], f2, rtol=1e-9, atol=1e-12) and np.allclose(b.coords["f1"], f1, rtol=1e-9, atol=1e-12))
-                if not ok:
-                    key = "C09:second-transform-wrong:" + sig
-                    fails.append({"key": key, "clause": key, "ops": [{"frequency_kind": kname, "ppm": ppm, "shape": [n2, n1]}]})
-                if not (list(back.dims) == ["t2", "t1"] and np.allclose(back.values, vals, rtol=1e-9, atol=1e-9)
-                        and np.allclose(back.coords["t2"], np.arange(n2) * dt2, rtol=1e-9, atol=1e-15)
-                        and np.allclose(back.coords["t1"], np.arange(n1) * dt1, rtol=1e-9, atol=1e-15)):
-                    key = "C09:inverse-of-sequence-wrong:" + sig
-                    fails.append({"key": key, "clause": key, "ops": [{"frequency_kind": kname, "ppm": ppm}]})
-                if not (np.allclose(again.values, a.values, rtol=1e-9, atol=1e-9) and np.allclose(again.coords["f2"], a.coords["f2"], rtol=1e-9, atol=1e-12)):
-                    key = "C09:forward-after-inverse-differs:" + sig
-                    fails.append({"key": key, "clause": key, "ops": [{"frequency_kind": kname, "ppm": ppm}]})
-                for obj, nm in ((d, "input"), (a, "first-result"), (b, "second-result"), (again, "last-result")):
-                    for store in (obj.attrs.get("nmr_frequency"), obj.dnplab_attrs.get("frequency")):
-                        if store is not None and not np.allclose(np.asarray(store, dtype=float), F0, rtol=1e-12):
-                            key = "C09:stored-frequency-changed:%s:%s" % (nm, kname)
-                            fails.append({"key": key, "clause": key, "ops": [{"frequency_kind": kname, "ppm": ppm, "stored": np.asarray(store).tolist()}]})
+    # the spectrometer frequency over the range instruments have: high field, low field, Earth's field (kHz), EPR (GHz), one drawn
+    for F0 in (400.0e6, 14.8e6, 2.0e3, 9.4e9, float(10 ** rng.uniform(3.0, 10.0))):
+      kinds = {"float": lambda: F0, "np.float64": lambda: np.float64(F0), "array0d": lambda: np.array(F0), "array1": lambda: np.array([F0])}
+      for n2, n1 in ((7, 12), (8, 5)):
+          dt2, dt1 = 1.0e-3, 2.5e-4
+          vals = (np.arange(n2 * n1, dtype=float).reshape(n2, n1) % 7 - 3.0) + 1j * (np.arange(n2 * n1, dtype=float).reshape(n2, n1) % 5 - 2.0)
+          for ppm in (True, False):
+              ref = None
+              for kname, mk in kinds.items():
+                  d = dnp.DNPData(vals.copy(), ["t2", "t1"], [np.arange(n2) * dt2, np.arange(n1) * dt1],
+                                  attrs={"nmr_frequency": mk()}, dnplab_attrs={"frequency": mk()})
+                  n_eval += 1
+                  try:
+                      with warnings.catch_warnings():
+                          warnings.simplefilter("ignore")
+                          a = dnp.fourier_transform(d, "t2", convert_to_ppm=ppm)
+                          b = dnp.fourier_transform(a, "t1", convert_to_ppm=ppm)
+                          back = dnp.inverse_fourier_transform(dnp.inverse_fourier_transform(b, "f1", convert_from_ppm=ppm), "f2", convert_from_ppm=ppm)
+                          again = dnp.fourier_transform(back, "t2", convert_to_ppm=ppm)
+                  except Exception as e:  # noqa: BLE001
+                      key = "C09:transform-sequence-raises:" + kname
+                      fails.append({"key": key, "clause": key, "ops": [{"frequency": F0, "frequency_kind": kname, "ppm": ppm, "error": type(e).__name__}]}); continue
+                  sig = "%s:%s:%s" % (kname, "ppm" if ppm else "hz", "F0<1e4" if F0 < 1e4 else "F0<1e8" if F0 < 1e8 else "F0>=1e8")
+                  want = np.fft.fftshift(np.fft.fft2(vals))
+                  f2 = (np.arange(n2) / (n2 * dt2) - (n2 // 2) / (n2 * dt2)) / (F0 / 1e6 if ppm else 1.0)
+                  f1 = (np.arange(n1) / (n1 * dt1) - (n1 // 2) / (n1 * dt1)) / (F0 / 1e6 if ppm else 1.0)
+                  ok = (list(b.dims) == ["f2", "f1"] and np.allclose(b.values, want, rtol=1e-9, atol=1e-9)
+                        and np.allclose(b.coords["f2"], f2, rtol=1e-9, atol=1e-9 * np.abs(f2).max()) and np.allclose(b.coords["f1"], f1, rtol=1e-9, atol=1e-9 * np.abs(f1).max()))
+                  if not ok:
+                      key = "C09:second-transform-wrong:" + sig
+                      fails.append({"key": key, "clause": key, "ops": [{"frequency": F0, "frequency_kind": kname, "ppm": ppm, "shape": [n2, n1]}]})
+                  if not (list(back.dims) == ["t2", "t1"] and np.allclose(back.values, vals, rtol=1e-9, atol=1e-9)
+                          and np.allclose(back.coords["t2"], np.arange(n2) * dt2, rtol=1e-9, atol=1e-15)
+                          and np.allclose(back.coords["t1"], np.arange(n1) * dt1, rtol=1e-9, atol=1e-15)):
+                      key = "C09:inverse-of-sequence-wrong:" + sig
+                      fails.append({"key": key, "clause": key, "ops": [{"frequency": F0, "frequency_kind": kname, "ppm": ppm}]})
+                  if not (np.allclose(again.values, a.values, rtol=1e-9, atol=1e-9) and np.allclose(again.coords["f2"], a.coords["f2"], rtol=1e-9, atol=1e-9 * np.abs(f2).max())):
+                      key = "C09:forward-after-inverse-differs:" + sig
+                      fails.append({"key": key, "clause": key, "ops": [{"frequency": F0, "frequency_kind": kname, "ppm": ppm}]})
+                  for obj, nm in ((d, "input"), (a, "first-result"), (b, "second-result"), (again, "last-result")):
+                      for store in (obj.attrs.get("nmr_frequency"), obj.dnplab_attrs.get("frequency")):
+                          if store is not None and not np.allclose(np.asarray(store, dtype=float), F0, rtol=1e-12):
+                              key = "C09:stored-frequency-changed:%s:%s" % (nm, kname)
+                              fails.append({"key": key, "clause": key, "ops": [{"frequency": F0, "frequency_kind": kname, "ppm": ppm, "stored": np.asarray(store).tolist()}]})
     seen, uniq = set(), []
     for f in fails:
         if f["key"] not in seen:
